@@ -21,6 +21,20 @@ CHECKS = {
         note='Trusted: the grid (operation at cycle,qudit) as primary view. The exhaustive part is complete only for the stated alphabet/length; the rest is exploration.',
         technique='invariant checking over generated and exhaustively enumerated call histories (Hypothesis + itertools.product)',
     ),
+    'C06': dict(
+        category='exploration',
+        text='Generated circuits (mixed radixes 2-4, width 1-6, permuted and non-adjacent locations, nested blocks, composed and frozen gates; also circuits reached by editing histories) with generated parameter vectors and seeded input states: get_unitary / get_statevector / get_unitary_and_grad / get_grad are compared with an independent numpy tensor contraction in grid order (parameters sliced in iteration order) and with central finite differences; params/get_param/set_param/get_param_location/freeze_param are checked to address the same scalars; qudit- and region-restricted iteration (both exclude modes, both directions) is compared with the set of operations the grid says lie inside the area.',
+        design_ref='DESIGN.md §4 C06, §3.1',
+        note='Trusted: numpy tensordot, per-gate matrices/gradients (C18), grid read API (C05). Tolerances 1e-9 (values), 2e-5*scale (finite differences, step 1e-6).',
+        technique='differential testing against an independent reference simulator over Hypothesis-generated circuits; finite-difference oracle for gradients',
+    ),
+    'C16': dict(
+        category='exploration',
+        text='Round-trip and aliasing oracles over generated objects: circuits reached through editing histories or rich specs (pickle, dill, copy, become deep/shallow: same grid cell by cell, same unitary, ==, full C05 view invariant on the copy; independence by running a second generated edit history on one side and re-reading the other), every gate construction of the generator and Operations (==, hash, name, unitary, singleton preservation), MachineModels, PassData with every reserved and user key set (pickle/copy/become/update, field-wise), Workflows nesting every control pass with module-level callables (structure after pickle), RuntimeTask payloads.',
+        design_ref='DESIGN.md §4 C16',
+        note='Trusted: pickle/dill; comparison through the public read API. Exploration only.',
+        technique='round-trip and metamorphic (mutate-one-side) property tests over Hypothesis-generated objects and edit histories',
+    ),
     'C20': dict(
         category='exploration',
         text='Exhaustive enumeration of all labelled graphs on <=5 (quick) / <=6 (thorough) vertices and all qudit permutations of <=4/<=5 qudits, plus Hypothesis-generated graphs to 15 vertices, weighted/remote edges, sub-graph renumberings, embedding pairs, Kronecker/power/apply sequences; each judged against textbook reference algorithms and explicit index arithmetic written independently of the code under test.',
